@@ -60,3 +60,20 @@ pub fn verr(kind: std::io::ErrorKind) -> (r: std::io::Error)
 #[verifier::external_body]
 pub fn vmsg() -> (r: String)
 { String::new() }
+
+// iterator pipelines over the size table  [rewrite R9]: mathematical prefix sum. ASSUMPTION: the u64 sum of u32 entries
+// does not overflow (it would need more than 2^32 entries, beyond the 512 MiB deserialisation limit).
+pub open spec fn sum_u32(s: Seq<u32>, n: nat) -> nat decreases n { if n == 0 || n > s.len() { 0 } else { sum_u32(s, (n - 1) as nat) + s[n - 1] as nat } }
+#[verifier::external_body]
+pub fn vsum_prefix_u32(v: &Vec<u32>, n: usize) -> (r: u64)
+    ensures r == sum_u32(v@, smin_nat(n as nat, v@.len())),
+{ v.iter().take(n).map(|s| u64::from(*s)).sum() }
+#[verifier::external_body]
+pub fn vsum_all_u32(v: &Vec<u32>) -> (r: u64)
+    ensures r == sum_u32(v@, v@.len()),
+{ v.iter().map(|s| u64::from(*s)).sum() }
+pub open spec fn smin_nat(a: nat, b: nat) -> nat { if a <= b { a } else { b } }
+
+// i64::unsigned_abs (Rust reference: |x| as u64, exact for i64::MIN)
+pub assume_specification[i64::unsigned_abs](x: i64) -> (r: u64)
+    ensures r == (if x >= 0 { x as int } else { -(x as int) });
